@@ -137,6 +137,8 @@ pub struct ComputeInfo {
     pub distinct_mem_sizes: usize,
     pub failing_children: usize,
     pub ok: bool,
+    /// Total gas of the machine right after this Compute joined (0 unless `ok`).
+    pub gas_after: u128,
 }
 
 fn pop(s: &mut Vec<i64>) -> Result<i64, ErrClass> {
@@ -422,6 +424,7 @@ impl<'a> Machine<'a> {
                 distinct_mem_sizes: ms.len(),
                 failing_children: failing,
                 ok: false,
+                gas_after: 0,
             });
         }
         if other_fail || gas_fail {
@@ -454,8 +457,10 @@ impl<'a> Machine<'a> {
         }
         self.gas += gas_sum;
         self.st.pc = max_pc;
+        let gas_now = self.gas;
         if let Some(l) = self.compute_log.last_mut() {
             l.ok = true;
+            l.gas_after = gas_now;
         }
         Event::Continue
     }
